@@ -33,7 +33,12 @@ type sMetric struct {
 	Type   int      `json:"type"` // metrics.Type
 	Keys   []string `json:"keys"`
 	Bounds []c21F   `json:"bounds,omitempty"`
-	LVs    []sLV    `json:"lvs"`
+	// BucketOrder, if set, is the order in which the metric's ranges are stored
+	// (a permutation of 0..len(Bounds)): a store built through the API may hold
+	// them in any order; an observation goes to the first stored range that
+	// takes it
+	BucketOrder []int `json:"bucket_order,omitempty"`
+	LVs         []sLV `json:"lvs"`
 }
 
 type storeCase struct {
@@ -72,7 +77,26 @@ func (m *sMetric) ranges() []datum.Range {
 		lo = float64(b)
 	}
 	r = append(r, datum.Range{Min: lo, Max: math.Inf(1)})
+	if len(m.BucketOrder) == len(r) {
+		p := make([]datum.Range, len(r))
+		for i, j := range m.BucketOrder {
+			p[i] = r[j%len(r)]
+		}
+		return p
+	}
 	return r
+}
+
+// bucketOf returns the upper bound of the stored range an observation is
+// counted in: the first range in stored order whose upper bound takes it (NaN:
+// the +Inf range).
+func (m *sMetric) bucketOf(v float64) float64 {
+	for _, r := range m.ranges() {
+		if v <= r.Max {
+			return r.Max
+		}
+	}
+	return math.Inf(1)
 }
 
 // build creates the real metric objects (not yet added to a store).
@@ -281,6 +305,12 @@ func genStore(rt *rapid.T, o storeGenOpts) storeCase {
 				lv.F = c21F(float64(seq) + 0.25)
 				lv.S = vstat.Q(fmt.Sprintf("text%d%s", seq, []string{"", "%", "%s", "%d"}[seq%4]))
 				lv.TimeNs = (1600000000 + seq*1000) * 1e9
+				switch rapid.IntRange(0, 7).Draw(rt, "tsform") {
+				case 0:
+					lv.TimeNs += 123456789 // sub-second part
+				case 1:
+					lv.TimeNs = -(seq*1000)*1e9 - 500000000 // before the epoch, with a sub-second part
+				}
 			} else {
 				lv.I = rapid.SampledFrom([]int64{0, 1, -1, 42, math.MaxInt64, math.MinInt64, 1 << 53, 1234567}).Draw(rt, "i")
 				fl := []float64{0, 1.5, -2.25, 1e300, 1e-300, 123456.789}
@@ -289,7 +319,7 @@ func genStore(rt *rapid.T, o storeGenOpts) storeCase {
 				}
 				lv.F = c21F(rapid.SampledFrom(fl).Draw(rt, "f"))
 				lv.S = vstat.Q(rapid.SampledFrom([]string{"", "hello", "two words"}).Draw(rt, "s"))
-				lv.TimeNs = rapid.SampledFrom([]int64{0, 1e6, 1600000000e9, 1600000000123e6, 1700000000999999999}).Draw(rt, "t")
+				lv.TimeNs = rapid.SampledFrom([]int64{0, 1e6, 1600000000e9, 1600000000123e6, 1700000000999999999, -1500000000}).Draw(rt, "t")
 			}
 			if sm.typ() == metrics.Float && o.nonFinite && o.distinctVals && rapid.IntRange(0, 9).Draw(rt, "nf") == 0 {
 				lv.F = c21F(rapid.SampledFrom([]float64{math.Inf(1), math.Inf(-1), math.NaN()}).Draw(rt, "nfv"))
